@@ -288,6 +288,18 @@ func TestSets(t *testing.T) {
 				}
 			}
 			c.Topics = clean
+			// depth: everything below a common prefix of k levels, so that topics and filters have
+			// 20, 32, 33, 64, 130 … levels (a bound on the number of levels anywhere shows here)
+			if k := rapid.SampledFrom([]int{0, 0, 14, 23, 24, 25, 28, 29, 30, 31, 32, 33, 62, 63, 64, 127, 130, 260}).Draw(t, "prefixLevels"); k > 0 {
+				label = "very-deep"
+				pre := strings.Repeat("d/", k)
+				for i := range c.Filters {
+					c.Filters[i] = pre + c.Filters[i]
+				}
+				for i := range c.Topics {
+					c.Topics[i] = pre + c.Topics[i]
+				}
+			}
 		}
 		m, nt := runSet(c)
 		ev.Case(nt, c, label, "via:"+c.Via)
